@@ -194,6 +194,31 @@ inline uint64_t hash_val(const Val &v, uint64_t h = 0xcbf29ce484222325ULL)
 }
 
 // ---- json-c <-> Val, public accessors only --------------------------------------
+// how string nodes get their contents: 0 constructor; 1 created short then grown with set_string_len
+// (separately allocated storage); 2 created long then shrunk (storage larger than the contents)
+inline int &build_str_mode()
+{
+	static int m = 0;
+	return m;
+}
+inline json_object *build_string(const std::string &s)
+{
+	int m = build_str_mode();
+	if (m == 1)
+	{
+		json_object *j = json_object_new_string_len(s.data(), s.empty() ? 0 : 1);
+		json_object_set_string_len(j, s.data(), (int)s.size());
+		return j;
+	}
+	if (m == 2)
+	{
+		std::string big = s + std::string(20, '#');
+		json_object *j = json_object_new_string_len(big.data(), (int)big.size());
+		json_object_set_string_len(j, s.data(), (int)s.size());
+		return j;
+	}
+	return json_object_new_string_len(s.data(), (int)s.size());
+}
 inline json_object *build(const Val &v)
 {
 	switch (v.k)
@@ -210,7 +235,7 @@ inline json_object *build(const Val &v)
 		if (!v.numtext.empty())
 			return json_object_new_double_s(v.d, v.numtext.c_str());
 		return json_object_new_double(v.d);
-	case Val::Str: return json_object_new_string_len(v.s.data(), (int)v.s.size());
+	case Val::Str: return build_string(v.s);
 	case Val::Arr: {
 		json_object *a = json_object_new_array();
 		for (auto &x : v.a)
